@@ -243,7 +243,8 @@ def dbl_entries(blobs):
             if len(lex) > 400:
                 continue
             x = dec_of_lexeme(lex)
-            if self_double(x):
+            big_int = x["e"] >= 0 and len(x["d"]) + x["e"] > 15
+            if self_double(x) and not big_int:
                 continue
             key = json.dumps(x, sort_keys=True)
             if key in seen:
@@ -254,7 +255,8 @@ def dbl_entries(blobs):
                 continue
             if f in (float("inf"), float("-inf")) or f != f:
                 continue
-            seen[key] = {"x": x, "y": dec_of_float(f)}
+            # y: the nearest double as its shortest round-trip decimal; ex: the decimal is exactly that double
+            seen[key] = {"x": x, "y": dec_of_float(f), "ex": Decimal(f) == Decimal(lex)}
     return list(seen.values())
 
 
